@@ -198,7 +198,8 @@ func (round *round4) Start() *tss.Error {
 			z = modQ.Mul(z, kj)
 			newBigXj, err = newBigXj.Add(Vc[c].ScalarMult(z))
 			if err != nil {
-				paiProofCulprits = append(paiProofCulprits, Pj)
+				// the sum is the point at infinity: newBigXj is nil now and must not be used again
+				return round.WrapError(errors2.Wrapf(err, "newBigXj.Add(Vc[c].ScalarMult(z))"), Pj)
 			}
 		}
 		newBigXjs[j] = newBigXj
